@@ -151,11 +151,16 @@ def run_real(sc, chooser, max_steps=2500):
             ids = []
             results = []
             call_done_at = []       # trace index at which each call had returned
+            call_start_at = []      # trace index at which each call began
+            ended_at = {}           # timer thread name -> trace index at which the scheduler first saw it ended
+            sched.monitors.append(lambda s_, st_: [ended_at.setdefault(t_.name, len(s_.trace)) for t_ in s_.threads
+                                                   if t_.finished and t_.name.startswith("timer")])
 
             def client():
                 for c in sc.calls:
                     sched.yield_point("call." + c[0])
                     mark = len(sched.trace) - 1
+                    call_start_at.append(mark)
                     if c[0] == "timed":
                         _, kind, sig, period, total, deferred = c
                         e = Event(signal="E%d" % sig, payload=500000 + len(ids))
@@ -212,6 +217,8 @@ def run_real(sc, chooser, max_steps=2500):
             ar.now = sched.now
             ar.results = results
             ar.call_done_at = call_done_at
+            ar.call_start_at = call_start_at
+            ar.ended_at = ended_at
             ar.finished = {t.name: t.finished for t in sched.threads}
             for t in sched.threads:
                 if t.error is not None:
@@ -329,6 +336,8 @@ def oracle(run, focus, sc, ar, cj):
                     "(capacity %d, some of them finished but not cancelled)" % (nth, tracked_n, sc.max_timers), cj)
     # which timers were cancelled (by a call that can match) and when did that call return
     cancelled_after = {}
+    cancelled_by = {}
+    requested_total = []        # what the CALLER asked for, per accepted source (not what the source object says it was given)
     tracked = []
     nt = 0
     ntimed = 0
@@ -337,23 +346,27 @@ def oracle(run, focus, sc, ar, cj):
         if c[0] == "timed":
             if ntimed < len(ar.results) and ar.results[ntimed]:
                 tracked.append((nt, c[2]))
+                requested_total.append(c[4])
                 nt += 1
             ntimed += 1
         elif c[0] == "cancel_event":
             if done is not None and any(t[0] == c[1] for t in tracked):
                 cancelled_after[c[1]] = done
+                cancelled_by[c[1]] = ci
                 tracked = [t for t in tracked if t[0] != c[1]]
                 run.count("cancel_event by %s id" % ("identical" if c[2] else "equal"))
         elif c[0] == "cancel_events":
             if done is not None:
                 for t in [t for t in tracked if t[1] == c[1]]:
                     cancelled_after[t[0]] = done
+                    cancelled_by[t[0]] = ci
                 tracked = [t for t in tracked if t[1] != c[1]]
                 run.count("cancel_events by %s name" % ("identical" if c[2] else "equal"))
         elif c[0] == "stop":
             if done is not None:
                 for t in tracked:
                     cancelled_after[t[0]] = done
+                    cancelled_by[t[0]] = ci
                 tracked = []
                 run.count("stop()")
                 # C12: the consumer thread has ended, nothing is dispatched afterwards
@@ -364,6 +377,8 @@ def oracle(run, focus, sc, ar, cj):
                     run.violate("C12/step-after-stop", "a run-to-completion step started after stop() returned", cj)
     for ti, t in enumerate(ar.timers):
         period, total, deferred, qtype = t["spec"]
+        if ti < len(requested_total):
+            total = requested_total[ti]
         placed_idx = [i for i, e in enumerate(trace) if e[0] == "timer%d" % ti and e[1] in ("dq.append", "dq.appendleft")]
         if ti in cancelled_after:
             late = [i for i in placed_idx if i >= cancelled_after[ti]]
@@ -372,6 +387,11 @@ def oracle(run, focus, sc, ar, cj):
                             "timed source %d placed an event in the queue after the cancelling call had returned" % ti, cj)
             if t["flag"]:
                 run.violate("C11/not-cancelled", "timed source %d still has its run flag set after it was cancelled" % ti, cj)
+            starts = getattr(ar, "call_start_at", [])
+            if not total and ti in cancelled_by and cancelled_by[ti] < len(starts) and \
+                    getattr(ar, "ended_at", {}).get("timer%d" % ti, len(trace) + 1) <= starts[cancelled_by[ti]]:
+                run.violate("C10/forever-source-ended", "timed source %d (period %d, times 0 / None: every period, for ever) had ended by itself after %d "
+                            "post(s) before the call that cancels it was made" % (ti, period, len(t["placed"])), cj)
             if cj.get("eager") and not total and ti in created_at and cancelled_after[ti] < len(trace):
                 # armed for ever and cancelled later: under a lazy clock every post that was due well before the cancelling call
                 # returned has happened (a source that ended by itself after its first post is seen here)
